@@ -325,6 +325,24 @@ class Run:
                 raise ToolError("Apalache does not confirm the inductive cursor invariant (%s):\n%s" % (what, r.stdout[-2500:]))
             res.append({"obligation": what, "outcome": "NoError", "wall_s": round(time.time() - t0, 1)})
         shutil.rmtree(out, ignore_errors=True)
+        # binding of the typed fragment to ScreenOps: every step of every CursorGeom action is the step Apply takes (TLC)
+        t0 = time.time()
+        size, par = (3, 5) if self.tier == "quick" else (4, 7)
+        cfg = os.path.join(self.wd, "MCCursorGeom.cfg")
+        with open(cfg, "w") as f:
+            f.write("SPECIFICATION MCSpec\nCONSTANTS MaxSize = %d\n MaxPar = %d\nINVARIANT Inv\nPROPERTY Refines\nCHECK_DEADLOCK FALSE\n" % (size, par))
+        meta = os.path.join(self.wd, "mcg")
+        try:
+            r = subprocess.run(tlc_cmd(["-workers", "8", "-metadir", meta, "-cleanup", "-noGenerateSpecTE", "-config", cfg, "MCCursorGeom.tla"]),
+                               cwd=SPEC, stdout=subprocess.PIPE, stderr=subprocess.STDOUT, text=True, timeout=1800)
+        except subprocess.TimeoutExpired:
+            raise ToolError("TLC timed out on MCCursorGeom")
+        m = re.search(r"(\d+) states generated, (\d+) distinct states found, 0 states left", r.stdout)
+        if "Model checking completed. No error has been found." not in r.stdout or not m:
+            raise ToolError("CursorGeom.tla is not a refinement of ScreenOps.tla (MCCursorGeom):\n%s" % r.stdout[-3000:])
+        res.append({"obligation": "every CursorGeom step = ScreenOps!Apply on the corresponding event (TLC, sizes <= %d and 132 columns, parameters -1..%d and 9999)" % (size, par),
+                    "outcome": "NoError", "steps_checked": int(m.group(1)), "wall_s": round(time.time() - t0, 1)})
+        shutil.rmtree(meta, ignore_errors=True)
         self.apalache = res
 
     # ---- replay on the implementation ----------------------------------------------
